@@ -4,7 +4,7 @@ from ..core import sv, walk, short
 from ..util import *
 from .. import panics
 from ..pestshape import ShapeSim
-from .layout import S
+from .layout import S, strip
 
 EXPLANATION = ('Decides, for the analysed crate code and all inputs, that every panic-capable site (unwrap/expect, panic!/unreachable!/assert!, '
                'compiler-inserted overflow/bounds/division asserts, indexing and slicing calls) in a function reachable from a text entry point is '
@@ -182,7 +182,17 @@ def r_allocation(ctx, config='default'):
                 if p in ('<types::StructuralType as types::TypeConstructible>::array', '<types::StructuralType as types::TypeConstructible>::list'):
                     ctx.ob(rid, key, False, 'vec![element; n] with n = array size / list bound - 1 taken from the source text: memory proportional to a number written in the input (aborts on `[u8; 100000000000]` / `List<u8, 1099511627776>`)', fn.where(t['line']))
                 else:
-                    ctx.ob(rid, key, p in OK, 'allocation sized by %s' % OK.get(p, 'an unreviewed quantity'), fn.where(t['line']))
+                    # with_capacity(x.len()) / reserve(x.len()): as much memory as a collection that already exists
+                    by_len = False
+                    if last in ('with_capacity', 'reserve', 'reserve_exact'):
+                        for kind, pth, ret in explore(ctx, fn, max_visits=1):
+                            if pth is None:
+                                continue
+                            evs = [e for e in event_calls(pth) if e[1] == c and e[3] == t['line']]
+                            if evs:
+                                by_len = all(is_call(strip(e[2][-1])) and strip(e[2][-1])[1].split('::')[-1] == 'len' for e in evs)
+                                break
+                    ctx.ob(rid, key, p in OK or by_len, 'allocation sized by %s' % (OK.get(p) or ('the length of an existing collection' if by_len else 'an unreviewed quantity')), fn.where(t['line']))
     ctx.floor(rid, 'sized allocation sites', n, 2)
 
 
@@ -319,7 +329,9 @@ def check(ctx):
     r_required_guards(ctx)
     r_guard_dominance(ctx)
     from . import binding
-    binding.r_tags(ctx, 'R06.7', arms_only=True)   # Match::scrutinee_type's unreachable!() relies on the normalised arm order
+    binding.r_tags(ctx, 'R06.7', arms_only=True)
+    from . import c03
+    c03.r_binders(ctx, 'R06.10')   # insert_variable's expect("Stack is empty") relies on a scope pushed before the binder is inserted   # Match::scrutinee_type's unreachable!() relies on the normalised arm order
     r_shape_selftest(ctx)
     n = panic_rule(ctx, 'R06.1')
     ctx.floor('R06.1', 'panic-capable sites in reachable functions', n[0], 200)
